@@ -186,9 +186,19 @@ func (store *Store) Restore() error {
 
 	r := resp.NewReader(store.rw)
 	database := 0
+	// Offset of the end of the last complete record.
+	var offset int64
 
 	for {
 		value, n, err := r.ReadValue()
+		if err == io.ErrUnexpectedEOF {
+			// The final record is torn (the process died while appending it).
+			// Drop it, so that commands logged from now on follow the last complete record.
+			if err = store.rw.Truncate(offset); err != nil {
+				return err
+			}
+			break
+		}
 		if err != nil && err != io.EOF {
 			return err
 		}
@@ -196,6 +206,7 @@ func (store *Store) Restore() error {
 			// Break out when there are no more bytes to read.
 			break
 		}
+		offset += int64(n)
 
 		command, err := value.MarshalRESP()
 		if err != nil {
